@@ -23,7 +23,7 @@ Definition ce1 (b : bool) (pid tid : int) (x : list N) (q : N) (r : int) : cev :
   {| c_begin := b; c_pid := n_ pid; c_tid := Some (n_ tid); c_name := x; c_q := q; c_r := n_ r |}.
 Definition mk_case (tasks : list (N * N)) (root : list N) (syms : list (list N)) (recs : list (N * bool * N * N))
   (sample : N) (g : list grow) (f0 fS dot mm : list (list N)) (ch : list cev) (ok : bool)
-  (args chargs : list (option (list N))) : case :=
+  (args : list (option (list argv))) (chargs : list (option (list N))) : case :=
   {| k_tasks := tasks; k_root := root; k_syms := syms; k_recs := recs; k_sample := sample; k_graph := g;
      k_flame0 := f0; k_flameS := fS; k_dot := dot; k_mermaid := mm; k_chrome := ch; k_json_ok := ok;
      k_args := args; k_chrome_args := chargs |}.
